@@ -107,7 +107,10 @@ func (k msgServer) ProcessUndPurchaseOrder(goCtx context.Context, msg *types.Msg
 
 	currentDecisions := purchaseOrder.Decisions
 	for _, d := range currentDecisions {
-		if msg.Signer == d.Signer {
+		// compare addresses, not their spellings: bech32 also accepts the all upper case
+		// spelling of an address, which must not count as a different signer
+		decidedBy, dErr := sdk.AccAddressFromBech32(d.Signer)
+		if msg.Signer == d.Signer || (dErr == nil && signer.Equals(decidedBy)) {
 			return nil, sdkerrors.Wrapf(types.ErrSignerAlreadyMadeDecision, "signer %s already decided: %s", msg.Signer, d.Decision.String())
 		}
 	}
